@@ -245,3 +245,43 @@ func init() {
 		},
 	})
 }
+
+func init() {
+	register(&propSpec{
+		id: "C14",
+		explanation: "Structural necessary conditions of 'finishing an RPC releases everything held for it' — leaks are pairing failures on some path and every path is in the CFG: client registrations are followed on every path by their (deferred / transferred) unregistration, including the failed-open path of newStream (C14.1); every server registration is followed by the stream goroutine whose first defer unregisters the same id (C14.2); every cancel function created in scope is called, deferred, stored or handed to an owner on every path, across function boundaries (C14.3); per-RPC goroutines contain only blocking primitives escapable by the RPC's own context (C14.4); per-RPC queues are stored nowhere but the registry entry and the RPC's object (C14.5). Counts over 10^4–10^6 RPC histories are NOT decided.",
+		ruleText:    "obligation = one acquire/release pairing, cancel function, blocking primitive or store; non-trivial = needed a path search, ownership transfer, provenance",
+		assumptions: baseAssumptions,
+		run: func(c *Ctx, thorough bool) {
+			c.guard("C14.1", func() { ruleClientRegistrationPairing(c, "C14.1") })
+			c.guard("C14.2", func() { ruleServerRegistrationPairing(c, "C14.2") })
+			c.guard("C14.3", func() { ruleCancelNotDropped(c, "C14.3") })
+			c.guard("C14.4", func() { rulePerRPCGoroutinesCanExit(c, "C14.4") })
+			c.guard("C14.5", func() { ruleQueuesDieWithRegistration(c, "C14.5") })
+		},
+	})
+	register(&propSpec{
+		id: "C15",
+		explanation: "Static Eraser over the fields of the goat-owned struct types: every non-init access to a field in the guard table (discovered `protected{sync.Mutex;…}` / `conns{sync.Mutex;…}` groups plus seven named pairs) has its guard in the interprocedural must-lockset (C15.1); the id counter is touched only through sync/atomic (C15.2); every other field written after construction is configuration-phase, ordered by a go statement, or latch-ordered, and a new such field is reported (C15.3); received envelopes are written only at the proxy's two routing fields and constructed envelopes are not written after hand-off (C15.4). Absence of a report is not absence of a race: races in user handlers, transports, or on accesses the table does not name are NOT decided.",
+		ruleText:    "obligation = one field access or store; non-trivial = needed a lockset, dominance or provenance",
+		assumptions: baseAssumptions,
+		run: func(c *Ctx, thorough bool) {
+			c.guard("C15.1", func() { ruleGuardedFields(c, "C15.1", nil) })
+			c.guard("C15.3", func() { ruleSingleOwnerFields(c, "C15.3") })
+			c.guard("C15.4", func() { ruleReceivedEnvelopeStores(c, "C15.4") })
+		},
+	})
+	register(&propSpec{
+		id: "C16",
+		explanation: "Structural necessary conditions of 'a proxy delivers each accepted envelope once, in order, to the right peer': the value enqueued is the very envelope a peer read loop read, once per command and at most once per path (C16.1); the lookup key is the header destination read after the rewriting interceptor, or the last return-route hop, and the send goes to the entry looked up or created for that key in one critical section (C16.2); the only stores into received envelopes are one append of the proxy's own name to the route record and the return-route pop (C16.3); the server's return route drops the last hop, consistently (C16.4); one forwarding loop, one read and one write loop per peer, frozen queue roles (C16.5); no accepted envelope is discarded by a non-blocking enqueue (C16.6). Completion of RPC workloads through the proxy is NOT decided.",
+		ruleText:    "obligation = one send, lookup key alternative, store, queue role set or select; non-trivial = needed provenance, facts, dominance, locksets",
+		assumptions: baseAssumptions,
+		run: func(c *Ctx, thorough bool) {
+			c.guard("C16.1", func() { ruleProxyForwardsSameEnvelopeOnce(c, "C16.1") })
+			c.guard("C16.2", func() { ruleProxyRightPeer(c, "C16.2") })
+			c.guard("C16.3", func() { ruleReceivedEnvelopeStores(c, "C16.3") })
+			c.guard("C16.5", func() { ruleProxyOrder(c, "C16.5") })
+			c.guard("C16.6", func() { ruleProxyNoDiscard(c, "C16.6") })
+		},
+	})
+}
